@@ -121,6 +121,7 @@ pub fn run_plan(b: u64, plan: &Value, seed: u64, out: &mut Out) -> (u64, bool) {
     let end_ns = t0 + (at.last().cloned().unwrap_or(0) + 6000) * MS;
 
     // the projection line after a step
+    let pre_timeout = std::cell::Cell::new(500 * MS);
     let mut emit = |sim: &mut Sim, calls: &mut Vec<Option<Call>>, called: &Vec<String>, reqs: &mut HashMap<u32, (SocketAddrV4, String, u64)>, log_pos: &mut usize,
                     step: Value, prev_live_empty: &mut bool, out: &mut Out| {
         // absorb new wire records (requests the node sent during this step)
@@ -203,7 +204,13 @@ pub fn run_plan(b: u64, plan: &Value, seed: u64, out: &mut Out) -> (u64, bool) {
             "called": called, "done": Value::Object(done),
         });
         // requests (of this behaviour) that have expired by now, per the harness' own wire log
-        let expired: Vec<u32> = reqs.iter().filter(|(_, (_, _, sent))| now - *sent >= timeout).map(|(t, _)| *t).collect();
+        // expiry is judged with the request timeout in force: for the request the incoming message answers, the timeout BEFORE
+        // this tick (the sample this very message contributes to the round-trip estimate must not decide about its own
+        // acceptance); for every other request the timeout after it (what the liveness checks at the end of the tick used)
+        let pre = pre_timeout.get();
+        pre_timeout.set(timeout);
+        let in_tid: Option<u32> = step["input"]["tid"].as_i64().filter(|t| *t >= 0).map(|t| t as u32);
+        let expired: Vec<u32> = reqs.iter().filter(|(t, (_, _, sent))| now - *sent >= if Some(**t) == in_tid { pre } else { timeout }).map(|(t, _)| *t).collect();
         let mut line = step;
         line["b"] = json!(b);
         line["t_ms"] = json!((now - t0) / MS);
